@@ -104,3 +104,10 @@ CORPUS += [
         'self._event_marks[heights.shape] = node_mask\nindices = torch.argsort(heights, descending=False)', expect=[('C08.M', 'PiecewiseConstantCoalescentGrid._sorted_terms::_event_marks::container-shared-by-all-instances')],
         more=[dict(scope='', old="class PiecewiseConstantCoalescentGrid(AbstractCoalescentDistribution):\n", new="class PiecewiseConstantCoalescentGrid(AbstractCoalescentDistribution):\n    _event_marks = {}\n\n", mode='text')]),
 ]
+CORPUS += [
+    Mut('c08-impossible-genealogies-judged-by-the-count-after-the-event', 'torchtree/evolution/coalescent.py', 'ConstantCoalescent.log_prob', 'lchoose2 = lineage_count * (lineage_count - 1) / 2.0',
+        'lchoose2 = lineage_count * (lineage_count - 1) / 2.0\nimpossible = torch.any((node_mask_sorted[..., :-1] == -1) & (lineage_count < 2), -1, keepdim=True)',
+        expect=[('C08.P', 'ConstantCoalescent.log_prob::F7-marks-combined-with-interval-quantities-end-the-intervals')]),
+    Mut('c08-benign-impossible-genealogies-judged-by-the-count-before-the-event', 'torchtree/evolution/coalescent.py', 'ConstantCoalescent.log_prob', 'lchoose2 = lineage_count * (lineage_count - 1) / 2.0',
+        'lchoose2 = lineage_count * (lineage_count - 1) / 2.0\nimpossible = torch.any((node_mask_sorted[..., 1:] == -1) & (lineage_count < 2), -1, keepdim=True)', benign=True),
+]
